@@ -88,7 +88,10 @@ static Built build_mutable(Rng& r, Mut& mu) {
   int n = r.range(2, 3);
   auto colvec = [&](int k) -> const ExprNode& { Array<const ExprNode> c(k); for (int i = 0; i < k; i++) c.set_ref(i, g.gen(1, 1, cfg.max_depth)); return ExprVector::new_col(c); };
   const ExprNode* e;
-  switch (r.below(12)) {
+  switch (r.below(13)) {
+    case 12: { // a vector with a mutable component next to constant zeros: the component functions must stay distinct
+      Array<const ExprNode> c(4); c.set_ref(0, t); c.set_ref(1, ExprConstant::new_scalar(0.0)); c.set_ref(2, *g.syms[0] + t2); c.set_ref(3, ExprConstant::new_scalar(0.0));
+      e = &ExprVector::new_col(c); b.rows = 4; b.cols = 1; break; }
     case 9: { const ExprNode& q = g.gen(1, 1, 1); e = &(t * q - t2 * q + g.gen(1, 1, 1)); b.rows = b.cols = 1; break; }      // like monomials with two different mutable coefficients
     case 10: { const ExprSymbol& xs = *g.syms[r.below(g.syms.size())]; e = &(t * xs + t2 * xs + xs * t2 - t * sqr(xs)); b.rows = b.cols = 1; break; }
     case 11: { const ExprNode& q = g.gen(1, 1, 1); e = &((t - t2) * q + (t2 * t) * g.gen(1, 1, 1)); b.rows = b.cols = 1; break; }
@@ -433,13 +436,13 @@ int main(int argc, char** argv) {
           derived.push_back(make_pair("simplify" + to_string(level) + "-mutable", make_pair(&cp.simplify(level), a2)));
         }
         Function g(f, Function::COPY);
-        Function* comp = (b.rows * b.cols > 1) ? &f[r.below(b.rows * b.cols)] : 0; int ci = 0; if (comp) for (int i = 0; i < b.rows * b.cols; i++) if (&f[i] == comp) ci = i;
+        vector<Function*> comps; if (b.rows * b.cols > 1) for (int i = 0; i < b.rows * b.cols; i++) comps.push_back(&f[i]);      // (built while the constants hold their first values)
         change(r, mu);
         string fd = dump_fun(f); cur = fd;
         auto pts2 = [&](const char* kind, const string& d1, const string& d2) { EMIT("equivnf %s %s %s %d => 1\n", kind, d1.c_str(), d2.c_str(), b.nvar); for (int k = 0; k < 2; k++) { Vector p(b.nvar); for (int i = 0; i < b.nvar; i++) p[i] = dyadic(r); EMIT("equivpt %s %s %s %s => 1\n", kind, d1.c_str(), d2.c_str(), ptok(p).c_str()); } };
         for (auto& d : derived) pts2(d.first.c_str(), fd, dump_expr(*d.second.first, *d.second.second));
         pts2("copy-mutable", fd, dump_fun(g));
-        if (comp) { string d2 = dump_fun(*comp); EMIT("equivcompnf %s %s %d %d => 1\n", fd.c_str(), d2.c_str(), ci, b.nvar); }
+        for (size_t i = 0; i < comps.size(); i++) { string d2 = dump_fun(*comps[i]); EMIT("equivcompnf %s %s %d %d => 1\n", fd.c_str(), d2.c_str(), (int)i, b.nvar); }
       } else if (wl == "c11") {
         GenCfg cfg; cfg.differentiable = r.coin(30); cfg.allow_vec = r.coin(70); cfg.allow_apply = false; cfg.max_depth = r.range(1, 4);
         Built b = r.coin(4) ? build_matsq(r) : (r.coin(6) ? build_dotpow(r) : (r.coin(30) ? build_linalg(r) : build(r, cfg, true, true)));
